@@ -193,7 +193,8 @@ def fields_read(expr, f, bind=None, depth=0):
                 if x.id in params and x.id not in ('self', 'cls') and f.cls is not None and depth < 3:
                     # a parameter of a helper: what the callers of the class hand in at that position
                     pos = params.index(x.id) - (1 if params and params[0] in ('self', 'cls') else 0)
-                    for g in f.cls.methods.values():
+                    chain = [k for k in getattr(f.cls, 'mro', [f.cls]) if hasattr(k, 'methods')]
+                    for g in [m for k in chain for m in k.methods.values()]:
                         if g is f:
                             continue
                         for c in ast.walk(g.node):
